@@ -17,7 +17,9 @@
 (***************************************************************************)
 EXTENDS Integers, Sequences, FiniteSets, SequencesExt, Json, TLC
 
-CONSTANTS Keys, Vals, MaxBatch, M1s   \* M1s: set of initial contents (functions)
+CONSTANTS Keys, Vals, MaxBatch, M1s,  \* M1s: set of initial contents (functions)
+          Prefix,                      \* operations every generated batch starts with (<<>> = none)
+          Variants                     \* BOOLEAN: attach every single corruption of the log to the emitted case
 
 VARIABLES m1, cur, touched, hist
 vars == <<m1, cur, touched, hist>>
@@ -55,7 +57,11 @@ Corruptions(log) ==
     \cup {[c |-> "extra", log |-> Append(log, e)] :
              e \in {Ins(k, v) : k \in Keys, v \in Vals} \cup {Rm(k) : k \in Keys}}
 
-Init == /\ m1 \in M1s /\ cur = m1 /\ touched = {} /\ hist = <<>>
+RECURSIVE Run(_, _)
+Run(m, ops) == IF ops = <<>> THEN m
+               ELSE Run(IF Head(ops).a = "ins" THEN Put(m, Head(ops).k, Head(ops).v) ELSE Del(m, Head(ops).k), Tail(ops))
+
+Init == /\ m1 \in M1s /\ cur = Run(m1, Prefix) /\ touched = {Prefix[i].k : i \in DOMAIN Prefix} /\ hist = Prefix
 
 Next ==
     /\ Len(hist) < MaxBatch
@@ -72,12 +78,17 @@ Spec == Init /\ [][Next]_vars
 LastOp == IF hist = <<>> THEN <<>> ELSE hist[Len(hist)]
 genview == <<m1, cur, touched, LastOp>>
 view == <<m1, cur, touched>>
+(* every batch history (not only every distinct model state): the implementation keeps per-key state inside a batch - *)
+(* the pending write-log entry with its "existed before the batch" flag - that the model's state does not show, so    *)
+(* remove / re-insert / remove sequences on one key must be executed as such                                           *)
+histview == <<m1, hist>>
 
 Case ==
     LET log == LogSeq(m1, cur, touched) IN
     [m1 |-> Pairs(m1), ops |-> hist, m2 |-> Pairs(cur), log |-> log,
-     variants |-> LET cs == SetToSeq(Corruptions(log)) IN
-                  [i \in DOMAIN cs |-> [c |-> cs[i].c, log |-> cs[i].log, accept |-> Apply(m1, cs[i].log) = cur]]]
+     variants |-> IF ~Variants THEN <<>>
+                  ELSE LET cs == SetToSeq(Corruptions(log)) IN
+                       [i \in DOMAIN cs |-> [c |-> cs[i].c, log |-> cs[i].log, accept |-> Apply(m1, cs[i].log) = cur]]]
 
 EmitInv == (hist # <<>>) => PrintT(ToJson(Case))
 
